@@ -140,6 +140,23 @@ VerdictMpaa ==
 VerdictJdelta ==
      Viol("JUPITER_DISTANCE_RANGE", Ge(Ev.delta, Dec(39, 1)) /\ Le(Ev.delta, Dec(65, 1)))
 \cup Viol("JUPITER_LIGHT_TIME", Le(Abs(Sub(Ev.tau, Mul(Dec(57755183, 10), Ev.delta))), Dec(1, 8)))
+\* apparent_rectangular_coordinates is a chain of six rotations: the length of the vector is unchanged
+VerdictJrot ==
+  IF Ev.oc # "ok" THEN {"JSAT_APPARENT_TOTAL"} ELSE
+  Viol("JSAT_APPARENT_IS_ROTATION", Le(Abs(Sub(Norm2(Ev.q), Norm2(Ev.p))), Mul(Dec(1, 9), Add(One, Norm2(Ev.p)))))
+\* correct_rectangular_positions: Z is kept; a satellite on the far side (Z > 0) is drawn towards the planet's centre by the
+\* perspective factor delta / (delta + Z / 2095), one on the near side away from it (checked on Y, which gets no other term);
+\* the differential light-time term moves X by at most |Z| / 17295; tuple, list and separate arguments agree
+VerdictJcorr ==
+  IF Ev.oc # "ok" THEN {"JSAT_CORRECTION_TOTAL"} ELSE
+     Viol("JSAT_CORRECTION_ARGUMENT_FORMS", Ev.c1 = Ev.c2 /\ Ev.c1 = Ev.c3)
+\cup Viol("JSAT_CORRECTION_KEEPS_Z", Ev.c1[3] = Ev.p[3])
+\cup Viol("JSAT_PERSPECTIVE", LET w == Add(Ev.delta, DivInt(Ev.p[3], 2095))
+                              IN Le(Abs(Sub(Mul(Ev.c1[2], w), Mul(Ev.p[2], Ev.delta))), Dec(1, 10)))
+\cup Viol("JSAT_LIGHT_TIME_TERM", LET w == Add(Ev.delta, DivInt(Ev.p[3], 2095))
+                                      dx == Sub(Mul(Ev.c1[1], w), Mul(Ev.p[1], Ev.delta))     \* = delta * light-time shift
+                                  IN Ge(dx, Neg(Dec(1, 10))) /\ Le(dx, Add(Mul(Ev.delta, DivInt(Abs(Ev.p[3]), 17295)), Dec(1, 10))))
+
 \* eval(repr(x)) rebuilds an equal object (Angle, Epoch, Interpolation, CurveFitting)
 VerdictReprs == Viol("REPR_ROUND_TRIP_ANGLE", Ev.a = 1) \cup Viol("REPR_ROUND_TRIP_EPOCH", Ev.e = 1)
            \cup Viol("REPR_ROUND_TRIP_INTERPOLATION", Ev.i = 1) \cup Viol("REPR_ROUND_TRIP_CURVEFITTING", Ev.c = 1)
@@ -256,7 +273,8 @@ Verdict == CASE Ev.k = "stat" -> VerdictStat [] Ev.k = "cal" -> VerdictCal [] Ev
              [] Ev.k = "jsat" -> VerdictJsat [] Ev.k = "jphen" -> VerdictJphen
              [] Ev.k = "macc" -> VerdictMacc [] Ev.k = "rdms" -> VerdictRdms [] Ev.k = "setang" -> VerdictSetAng
              [] Ev.k = "ecleq" -> VerdictEclEq [] Ev.k = "sline" -> VerdictSline [] Ev.k = "mpaa" -> VerdictMpaa
-             [] Ev.k = "jdelta" -> VerdictJdelta [] Ev.k = "reprs" -> VerdictReprs [] OTHER -> {"UNKNOWN_KIND"}
+             [] Ev.k = "jdelta" -> VerdictJdelta [] Ev.k = "reprs" -> VerdictReprs
+             [] Ev.k = "jrot" -> VerdictJrot [] Ev.k = "jcorr" -> VerdictJcorr [] OTHER -> {"UNKNOWN_KIND"}
 Init == TraceInit(0)
 Next == StepWith(Verdict, 0)
 Spec == Init /\ [][Next]_<<l, st>>
